@@ -387,6 +387,13 @@ def log_features(a, env, out=None):
             out.add("int-node-vs-literal-with-unit")
         try:
             l, r = _operand_value(a[2], env), _operand_value(a[3], env)
+            if l[0] == "num" and r[0] == "num" and l[2] == r[2]:
+                if l[1] == 0 and r[1] == 0:
+                    out.add("both-operands-zero")
+                elif l[1] == 0 or r[1] == 0:
+                    out.add("one-operand-zero")
+                if l[1] < 0 or r[1] < 0:
+                    out.add("negative-operand")
             if l[0] == "num" and r[0] == "num" and l[2] == r[2] and max(abs(l[1]), abs(r[1])) > 0:
                 rel = abs(l[1] - r[1]) / max(abs(l[1]), abs(r[1]))
                 out.add("offset:0" if rel == 0 else "offset:<=1e-7" if rel <= EQ_IN else
@@ -487,7 +494,9 @@ def log_eval(a, env):
         lv, rv = l[1], r[1]
         big = max(abs(lv), abs(rv))
         if big == 0:
-            raise RefSkip("zero operands (absolute tolerance unspecified)")
+            # both operands are exactly zero (in whatever unit: the conversion of an exact zero is an exact zero):
+            # equal under every reading of the tolerance, and neither smaller nor greater
+            return op in ("==", "<=", ">=")
         rel = abs(lv - rv) / big
         if rel <= EQ_IN:
             equal = True
